@@ -112,7 +112,7 @@ add(Contract("yarl._path:normalize_path", [("path", STR)], spec=spec_path.normal
 add(Contract("yarl._url:encode_url", [("url_str", STR)], spec=spec_url.encode_url, raises=(ValueError,),
              transparent=("yarl._parse:make_netloc",), shards=16, tier="thorough", opaque=True, shape="URL",
              memo_skip=("raw_host", "raw_user", "raw_password", "explicit_port"),
-             props=("C03", "C07", "C15", "C16", "C19"),
+             props=("C03", "C07", "C15", "C16", "C19", "C08", "C10"),
              note="thorough tier only (minutes on 16 cores): the five stored parts refine the specification; the eager "
                   "authority entries of the memo (raw_host, raw_user, raw_password, explicit_port) are not attempted here"))
 add(Contract("yarl._url:pre_encoded_url", [("url_str", STR)], spec=spec_url.pre_encoded_url, raises=(ValueError,),
